@@ -80,6 +80,7 @@ type Item struct {
 	Val   []byte
 	Flags uint32
 	Exp   uint32
+	CAS   uint64 // unique per mutation, as memcached's
 }
 
 // ReqLog is one request as seen by the backend.
@@ -100,7 +101,8 @@ type Store struct {
 	Log   []ReqLog
 	LogOn bool
 	// NowFn returns the current unix time; defaults to time.Now (virtual inside a synctest bubble).
-	NowFn func() uint32
+	NowFn  func() uint32
+	casSeq uint64
 	// Opened / Closed connection counters (C15).
 	Opened, Closed int
 	// Locked makes Handle and the counters take Mu (free-running race passes only).
@@ -127,7 +129,7 @@ func (s *Store) Clone() *Store {
 	n.NowFn = s.NowFn
 	n.LogOn = s.LogOn
 	for k, v := range s.M {
-		n.M[k] = &Item{Val: append([]byte(nil), v.Val...), Flags: v.Flags, Exp: v.Exp}
+		n.M[k] = &Item{Val: append([]byte(nil), v.Val...), Flags: v.Flags, Exp: v.Exp, CAS: v.CAS}
 	}
 	return n
 }
@@ -206,6 +208,7 @@ type Frame struct {
 	RawLen  int
 	Flags   uint32
 	Exptime uint32
+	CAS     uint64
 }
 
 func (f *Frame) String() string {
@@ -232,7 +235,7 @@ func ParseFrame(buf []byte) (f *Frame, n int, ok bool, bad bool) {
 	if len(buf) < 24+tot {
 		return nil, 0, false, false
 	}
-	f = &Frame{Op: buf[1], Opaque: binary.BigEndian.Uint32(buf[12:16]), RawLen: 24 + tot}
+	f = &Frame{Op: buf[1], Opaque: binary.BigEndian.Uint32(buf[12:16]), RawLen: 24 + tot, CAS: binary.BigEndian.Uint64(buf[16:24])}
 	body := buf[24 : 24+tot]
 	f.Extras = append([]byte(nil), body[:el]...)
 	f.Key = append([]byte(nil), body[el:el+kl]...)
@@ -285,6 +288,23 @@ func (s *Store) Handle(conn string, f *Frame) []byte {
 	}
 	return rep
 }
+
+// casRefusal applies memcached's compare-and-swap rule to a mutating request that carries a
+// non-zero CAS (rend itself never sends one: its request headers zero the field).
+func casRefusal(f *Frame, it *Item) uint16 {
+	if f.CAS == 0 {
+		return StOK
+	}
+	if it == nil {
+		return StNotFound
+	}
+	if it.CAS != f.CAS {
+		return StExists
+	}
+	return StOK
+}
+
+func (s *Store) nextCAS() uint64 { s.casSeq++; return 1000 + s.casSeq }
 
 func (s *Store) handle(f *Frame) (uint16, []byte) {
 	key := string(f.Key)
@@ -363,11 +383,16 @@ func (s *Store) handle(f *Frame) (uint16, []byte) {
 		if f.Op == OpReplace && it == nil {
 			return e(StNotFound)
 		}
+		if f.Op != OpAdd {
+			if st := casRefusal(f, it); st != StOK {
+				return e(st)
+			}
+		}
 		exp, gone := s.deadline(f.Exptime)
 		if gone {
 			delete(s.M, key)
 		} else {
-			s.M[key] = &Item{Val: append([]byte(nil), f.Val...), Flags: f.Flags, Exp: exp}
+			s.M[key] = &Item{Val: append([]byte(nil), f.Val...), Flags: f.Flags, Exp: exp, CAS: s.nextCAS()}
 		}
 		return StOK, Reply(f.Op, StOK, f.Opaque, nil, nil)
 	case OpAppend, OpPrepend:
@@ -378,6 +403,10 @@ func (s *Store) handle(f *Frame) (uint16, []byte) {
 		if it == nil {
 			return e(StNotStored)
 		}
+		if st := casRefusal(f, it); st != StOK {
+			return e(st)
+		}
+		it.CAS = s.nextCAS()
 		if f.Op == OpAppend {
 			it.Val = append(append([]byte(nil), it.Val...), f.Val...)
 		} else {
@@ -391,6 +420,9 @@ func (s *Store) handle(f *Frame) (uint16, []byte) {
 		it := s.Lookup(key)
 		if it == nil {
 			return e(StNotFound)
+		}
+		if st := casRefusal(f, it); st != StOK {
+			return e(st)
 		}
 		delete(s.M, key)
 		return StOK, Reply(f.Op, StOK, f.Opaque, nil, nil)
